@@ -30,6 +30,7 @@ func init() {
 		c.rulesC03(a, c.lockAnalysis())
 		c.rulesR3net()
 		c.rulesR3resolver()
+		c.rulesR3batch3("C02")
 		// a vetoed state may be dropped from the target (instead of cancelling
 		// the whole transition) only for an Auto state of an auto mutation:
 		// otherwise a manual mutation is half-applied and still reports Executed
@@ -100,7 +101,7 @@ func init() {
 			c.rulesC14(a, c.lockAnalysis())
 			c.rulesC14chk(a)
 			c.rulesR3own()
-			c.rulesR3misc()
+			c.rulesR3misc("C14")
 		}
 	})
 }
@@ -117,7 +118,7 @@ func init() {
 			c.rulesC06x(a)
 			c.rulesC06reuse()
 			c.rulesR3subs()
-			c.rulesR3misc()
+			c.rulesR3misc("C06")
 			c.rulesR3handlers()
 		}
 	})
@@ -131,7 +132,7 @@ func init() {
 			c.rulesC13(a, c.lockAnalysis())
 			c.rulesC13grace()
 			c.rulesR3parent()
-			c.rulesR3misc()
+			c.rulesR3misc("C13")
 			c.rulesC13send(c.lockAnalysis())
 		}
 	})
@@ -162,7 +163,7 @@ func init() {
 		NotDecided:  "Determinism of user handlers, of stable-sort ties, of values flowing through more than one function (the taint is intra-procedural), of goroutine scheduling.",
 		Trusted:     commonTrusted,
 	}, func(c *Ctx) {
-		c.rulesC11([]string{pm, "pkg/graph"})
+		c.rulesC11([]string{pm, "pkg/graph", prpc, "pkg/helpers"})
 	})
 }
 
@@ -178,6 +179,7 @@ func init() {
 			c.rulesC02x(a)
 			c.rulesC02grow()
 			c.rulesR3resolver()
+			c.rulesR3batch3("C02")
 		}
 	})
 }
@@ -212,7 +214,7 @@ func init() {
 	}, func(c *Ctx) {
 		c.rulesC17()
 		c.rulesC17ord()
-		c.rulesR3misc()
+		c.rulesR3misc("C17")
 	})
 }
 
@@ -225,6 +227,7 @@ func init() {
 		c.rulesC18()
 		c.rulesC18dflt()
 		c.rulesC18flat()
+		c.rulesR3batch3("C18")
 		c.rulesC04dup()
 		c.rulesC18net()
 	})
@@ -246,6 +249,7 @@ func init() {
 			c.rulesC02x(a)
 			c.rulesC02grow()
 			c.rulesR3resolver()
+			c.rulesR3batch3("C02")
 		}
 	})
 }
@@ -260,6 +264,8 @@ func init() {
 		c.rulesC20deep()
 		c.rulesR3ask()
 		c.rulesR3bounds()
+		c.rulesR3helpers()
+		c.rulesR3batch3("C20")
 	})
 }
 
@@ -271,6 +277,7 @@ func init() {
 	}, func(c *Ctx) {
 		c.rulesC15()
 		c.rulesC15key()
+		c.rulesR3batch3("C15")
 	})
 }
 
@@ -283,5 +290,6 @@ func init() {
 		c.rulesC16()
 		c.rulesC16buf()
 		c.rulesC16back()
+		c.rulesR3batch3("C16")
 	})
 }
